@@ -333,6 +333,13 @@ def correspond(ctx):
                                     f'{meta["method"]} ({meta["layout"]}, x {meta["x_order"]}): the core\'s {meta["what"]} '
                                     f'{"shares" if e_ == "1" else "does not share"} memory with the caller\'s array, the model says '
                                     f'{"shares" if r == "1" else "fresh"} ({ln})', meta, False))
+    # object-history fuzzer (hist.py): the same caller objects (data buffer, weights array, x, z, keyword dictionaries) are handed to
+    # several calls on one long-lived fitter; no call may change them
+    from . import hist
+    if not getattr(ctx, 'only', None):
+        for spec, f in hist.campaign(ctx, rng, 'mutated', 60 if ctx.thorough else 25, 20 if ctx.thorough else 8, sys_what=('repeat', 'pairs'), max_pairs=None if ctx.thorough else 260):
+            dis.append(Disagreement('c13.fuzz', f'fuzz:{"2d" if spec["two_d"] else "1d"}:{spec["steps"][-1]["method"]}',
+                                    f'history on one fitter: {hist.describe(spec)[:700]} — call {f[0] + 1}: {f[2]}', {'kind': 'fuzz', 'spec': spec, 'method': '<history>'}, True))
     return dis
 
 
@@ -343,6 +350,10 @@ def search(ctx, hints, lean_failed):
 
 def replay(ctx, data):
     r = data['replay']
+    if r.get('kind') == 'fuzz':
+        from . import hist
+        f = [x for x in hist.run(r['spec'], want=('mutated',)) if x[1] == 'mutated']
+        return f'call {f[0][0] + 1}: {f[0][2]}' if f else None
     sub = type(ctx)(ctx.prop, 'thorough', 0)
     sub.only = r.get('method')
     sub.no_corpus = True
